@@ -41,6 +41,18 @@ pub fn expand(spec: &str) -> Vec<u8> {
         }
         return v;
     }
+    if let Some(r) = spec.strip_prefix("lbody:") {
+        // lbody:<flags hex>:<declared length>:<body bytes actually delivered>
+        let mut it = r.splitn(3, ':');
+        let flags = u8::from_str_radix(it.next().unwrap(), 16).unwrap();
+        let declared: u64 = it.next().unwrap().parse().unwrap();
+        let n: usize = it.next().unwrap().parse().unwrap();
+        let mut v = Vec::with_capacity(9 + n);
+        v.push(flags);
+        v.extend_from_slice(&declared.to_be_bytes());
+        v.extend(std::iter::repeat(0xAB).take(n));
+        return v;
+    }
     panic!("bad spec {}", spec);
 }
 
@@ -372,6 +384,24 @@ fn structured_family(tier: Tier) -> Vec<(String, String)> {
             }
         }
     }
+    drop(push);
+    // hostile 64-bit lengths followed by part of the body (a decoder may change its mind about
+    // reserving once some of the frame has arrived)
+    for &l in &[1u64 << 24, 1 << 28, 1 << 32, 1 << 40, 1 << 62, (1 << 63) - 1, 1 << 63, u64::MAX] {
+        for flags in [0x02u8, 0x03, 0x06] {
+            let delivered: &[usize] = if tier == Tier::Thorough {
+                &[100, 4096, 8182, 8183, 8184, 8191, 8192, 8193, 8201, 16383, 16384, 16385, 24576, 65536, 131072, 300_000, 1_000_000]
+            } else if flags == 0x02 {
+                &[4096, 8183, 8192, 8193, 16384, 24576, 65536, 300_000]
+            } else {
+                &[8192, 65536]
+            };
+            for &n in delivered {
+                v.push((format!("long frame flags {:#04x} declared length {} followed by {} bytes of its body", flags, l, n), format!("lbody:{:02x}:{}:{}", flags, l, n)));
+            }
+        }
+    }
+    let mut push = |d: String, bytes: Vec<u8>| v.push((d, format!("hex:{}", rc::hex(&bytes))));
     // reserved flag bits
     for flags in [0x08u8, 0x10, 0x20, 0x40, 0x80, 0xF8, 0xFF, 0xFC] {
         push(format!("frame with reserved flag bits {:#04x}", flags), vec![flags, 0x01, 0x41, 0x00, 0x01, 0x42]);
